@@ -354,17 +354,29 @@ def install(I):
             acc = acc + x
         return acc
 
+    def _sym_extreme(I, a, kw, which):
+        """min / max of two or more NUMBERS given as separate arguments (python: the first of equal ones; for numbers the value is
+        the same): a chain of conditional expressions"""
+        from .core import SNum, ite
+
+        if kw or len(a) < 2 or not all(isinstance(x, (int, float, SNum)) and not isinstance(x, bool) for x in a):
+            raise Unsupported(f"{which} of symbolic")
+        r = a[0]
+        for x in a[1:]:
+            r = ite((x < r) if which == "min" else (x > r), x, r)
+        return r
+
     @model(builtins.min)
     def _min(I, *a, **kw):
         if core_is_concrete(list(a)):
             return min(*a, **kw)
-        raise Unsupported("min of symbolic")
+        return _sym_extreme(I, a, kw, "min")
 
     @model(builtins.max)
     def _max(I, *a, **kw):
         if core_is_concrete(list(a)):
             return max(*a, **kw)
-        raise Unsupported("max of symbolic")
+        return _sym_extreme(I, a, kw, "max")
 
     @model(builtins.iter)
     def _iter(I, v):
